@@ -277,7 +277,11 @@ def install_hooks():
         event.listen(getattr(cls, col), 'set', on_set)
 
     for cls, cols in ((models.WorkflowExecution, ('state', 'accepted')),
-                      (models.TaskExecution, ('state', 'processed')),
+                      # (workflow_execution_id is written once, when the
+                      # task execution object is created: the position of
+                      # a task's creation inside its transaction)
+                      (models.TaskExecution, ('state', 'processed',
+                                              'workflow_execution_id')),
                       (models.ActionExecution, ('state', 'accepted',
                                                 'output'))):
         for col in cols:
